@@ -73,7 +73,10 @@ def pos_to_span(pos: List[str]) -> Span:
     """
     (start, path) = pos[0].split(":")
     (end, _) = pos[-1].split(":")
-    return Span(int(start), int(end), path)
+    # The last captured position follows the first one in the flat AST, not necessarily in the
+    # source: e.g., the default value of a first parameter is listed after the other parameters.
+    (start, end) = sorted((int(start), int(end)))
+    return Span(start, end, path)
 
 
 DEFAULT_SPEC_PATH = Path(dirname(__file__)) / "resources" / "spec.md"
